@@ -1197,8 +1197,12 @@ def EQ(a, b):
             return FALSE
         return d.all_(EQ(x, y) for x, y in zip(a, b))
     if isinstance(a, GDict) or isinstance(b, GDict):
+        if isinstance(a, dict) and not isinstance(a, GDict):
+            a = wrap(a)
+        if isinstance(b, dict) and not isinstance(b, GDict):
+            b = wrap(b)
         if not (isinstance(a, GDict) and isinstance(b, GDict)):
-            raise Unsupported('dict equality with native dict')
+            return FALSE
         lits = []
         for k in set(a.m) | set(b.m):
             pa, va = a.m.get(k, (FALSE, None))
@@ -1426,57 +1430,43 @@ def RAISE(exc):
 
 
 def AND(*thunks):
-    d = E.dag
-    acc = TRUE
-    pushed = 0
-    last = True
+    """x and y and ...: the first operand that is falsy, else the last one (values, not booleans)"""
+    v = thunks[0]()
+    if len(thunks) == 1:
+        return v
+    l = E.lit(v)
+    if l == FALSE:
+        return v
+    if l == TRUE:
+        return AND(*thunks[1:])
+    E.push(l)
     try:
-        for t in thunks:
-            v = t()
-            l = E.lit(v)
-            last = v
-            if not is_sym(v) and acc == TRUE:
-                if l == FALSE:
-                    return v
-                continue
-            acc = d.and_(acc, l)
-            if acc == FALSE:
-                return False
-            E.push(l)
-            pushed += 1
-        if acc == TRUE:
-            return last
-        return E.sb(acc)
+        rest = AND(*thunks[1:])
     finally:
-        for _ in range(pushed):
-            E.pop()
+        E.pop()
+    if isinstance(v, (SB, bool)) and isinstance(rest, (SB, bool)):
+        return E.sb(E.dag.and_(l, E.lit(rest)))
+    return E.merge(l, rest, v)
 
 
 def OR(*thunks):
-    d = E.dag
-    acc = FALSE
-    pushed = 0
-    last = False
+    """x or y or ...: the first operand that is truthy, else the last one (values, not booleans)"""
+    v = thunks[0]()
+    if len(thunks) == 1:
+        return v
+    l = E.lit(v)
+    if l == TRUE:
+        return v
+    if l == FALSE:
+        return OR(*thunks[1:])
+    E.push(l ^ 1)
     try:
-        for t in thunks:
-            v = t()
-            l = E.lit(v)
-            last = v
-            if not is_sym(v) and acc == FALSE:
-                if l == TRUE:
-                    return v
-                continue
-            acc = d.or_(acc, l)
-            if acc == TRUE:
-                return True
-            E.push(l ^ 1)
-            pushed += 1
-        if acc == FALSE:
-            return last
-        return E.sb(acc)
+        rest = OR(*thunks[1:])
     finally:
-        for _ in range(pushed):
-            E.pop()
+        E.pop()
+    if isinstance(v, (SB, bool)) and isinstance(rest, (SB, bool)):
+        return E.sb(E.dag.or_(l, E.lit(rest)))
+    return E.merge(l, v, rest)
 
 
 def NOT(x):
